@@ -11,7 +11,8 @@
      - the SDP of an `answer` is accepted or not ([ok]);
      - tracks appear on an up connection by [OpTrack] (pion's OnTrack);
      - the goroutine of pushConn (time.Sleep(200ms)) is a pending [timer]
-       fired by [OpTimer] at a moment chosen by the schedule;
+       fired by [OpTimer] at a moment chosen by the schedule (it pushes to
+       the clients that are in the group at that moment);
      - CreateOffer/SetLocalDescription of the server's own down connection
        and AddTransceiverFromTrack succeed (negotiate and replaceTracks
        return no error).
@@ -154,7 +155,9 @@ Record client := mkClient {
   c_dead : bool
 }.
 
-Record timer := mkTimer { t_up : nat; t_group : nat; t_cs : list nat }.
+(* a sleeping goroutine of pushConn: the connection and the group it captured;
+   the clients are read from the group when it wakes up *)
+Record timer := mkTimer { t_up : nat; t_group : nat }.
 
 Record world := mkWorld {
   w_n : nat;
@@ -403,15 +406,16 @@ Definition del_up_conn' (c id : nat) (push : bool) (w : world) : world :=
   match del_up_conn c id push w with DelNone => w | DelOk w' => w' end.
 
 (* pushConn(up, g, cs): pushed = false; go func() { sleep; ... }() *)
-Definition new_timer (u g : nat) (cs : list nat) (w : world) : world :=
-  set_timers (w_timers w ++ [mkTimer u g cs])
+Definition new_timer (u g : nat) (w : world) : world :=
+  set_timers (w_timers w ++ [mkTimer u g])
     (upd_up u (up_set_pushed false) w).
 
 (* the goroutine after the sleep: test-and-set pushed; pushConnNow *)
 Definition fire_timer (t : timer) (w : world) : world :=
   let o := w_up w (t_up t) in
   if uo_pushed o then w
-  else enq_all (t_cs t) (APush (t_group t) (uo_id o) (Some (t_up t)) (uo_tracks o) (uo_replace o))
+  else enq_all (others w (t_group t) (uo_owner o))   (* g.GetClients(c) when the goroutine wakes up *)
+               (APush (t_group t) (uo_id o) (Some (t_up t)) (uo_tracks o) (uo_replace o))
                (upd_up (t_up t) (fun o => up_set_replace 0 (up_set_pushed true o)) w).
 
 (* failUpConnection(c, id, message) with id != "" and message != "" *)
@@ -427,7 +431,7 @@ Definition new_up_conn (c id label g : nat) (w : world) : world :=
   let w0 := mkWorld (w_n w) (w_cl w) (S u)
               (fun x => if Nat.eqb x u then mkUp c id label false false 0 [] g else w_up w x)
               (w_timers w) in
-  new_timer u g (others w g c)
+  new_timer u g
     (upd_cl c (fun cl => set_ups (c_up cl ++ [(id, u)]) cl) w0).
 
 (* gotOffer + the error handling of the `offer` case *)
@@ -634,7 +638,7 @@ Definition step (w : world) (o : op) : world :=
         match c_group (w_cl w (uo_owner o)) with
         | None => w                                 (* not reachable *)
         | Some g =>
-            new_timer u g (others w g (uo_owner o))
+            new_timer u g
               (upd_up u (up_add_track k) w)
         end
       else w
